@@ -163,9 +163,12 @@ PROPS["C12"] = dict(
     harnesses={
         "c12_int_counter_two_locals_two_ops": dict(cap=1800),
         "c12_float_counter_flush_twice": dict(cap=1800),
-        "c12_local_histogram_flush_and_clear": dict(cap=2400),
-        "c12_local_histogram_clone_and_direct": dict(cap=2400),
-        "c12_local_histogram_drop_flushes": dict(cap=2400),
+        "c12_local_histogram_flush_twice_quick": dict(cap=2400),
+        "c12_local_histogram_clone_quick": dict(cap=2400),
+        "c12_local_histogram_drop_quick": dict(cap=2400),
+        "c12_local_histogram_flush_and_clear": dict(cap=2400, tier="thorough"),
+        "c12_local_histogram_clone_and_direct": dict(cap=2400, tier="thorough"),
+        "c12_local_histogram_drop_flushes": dict(cap=2400, tier="thorough"),
     },
     functions=["GenericLocalCounter::{inc_by, inc, get, reset, flush, clone}", "GenericCounter::{inc_by, reset, get, local}", "LocalHistogramCore::{observe, clear, flush}",
                "LocalHistogram::{observe, flush, clear, clone, drop, get_sample_count, get_sample_sum}", "HistogramCore::{observe, proto, sample_sum, sample_count}"],
@@ -205,7 +208,8 @@ PROPS["C02"] = dict(
     jobs=3,
     mem_gb=50,
     harnesses={
-        "c02_s1_observe_vs_collect": dict(cap=3600),
+        "c02_s1_observe_vs_collect": dict(cap=3600, tier="thorough"),
+        "c02_s1_fixed_value_observe_vs_collect": dict(cap=3600, tier="experimental"),
         "c02_s2_two_observes_prefix_closed": dict(cap=7200, tier="experimental"),
         "c02_s3_two_observers_vs_collect": dict(cap=7200, tier="experimental"),
         "c02_s4_two_collectors": dict(cap=7200, tier="experimental"),
@@ -375,7 +379,7 @@ MANIFEST_TEXT["C06"] = dict(
 )
 MANIFEST_TEXT["C02"] = dict(
     technique="Lal-Reps K-round sequentialisation of the real observe/proto code (Kani/CBMC) plus a z3 RC11 release/acquire litmus built from the atomic events extracted from the crate's MIR (E5)",
-    level="Kani: every K=2 round-robin schedule of one observer and one collector yields a snapshot that is one consistent cut respecting real time (S1). z3: no RC11-consistent execution lets the collector count an observation/flush whose bucket or sum update it then misses; twins with either side weakened to Relaxed are sat. Scenarios with two collectors / two observers are experimental (no usable solver verdict, DESIGN A.9): the collector/collector clause is NOT decided. Litmus bounded to 1 observer/flush x 1 collector.",
+    level="Quick tier: the z3 litmus only (about 30 s). Thorough tier adds the Kani scenario S1 (12-14 min, more than the 15-minute budget of a per-change check once compilation is added): every K=2 round-robin schedule of one observer and one collector yields a snapshot that is one consistent cut respecting real time. z3: no RC11-consistent execution lets the collector count an observation/flush whose bucket or sum update it then misses; twins with either side weakened to Relaxed are sat. Scenarios with two collectors / two observers are experimental (no usable solver verdict, DESIGN A.9): the collector/collector clause is NOT decided. Litmus bounded to 1 observer/flush x 1 collector.",
     note="Trusted: crate::verif_sync (SC), the MIR reader's classification of atomic locations (fails closed), the RC11 fragment encoded (po, rf, mo, release sequences, sw, hb, coherence, RMW atomicity; no fences, no SC axioms).",
 )
 
